@@ -13,6 +13,8 @@
 //! * [`Signing`], [`build`] -> [`Built`] – `InMemoryZoneHandler<SimProvider>` filled with
 //!   `upsert_mut`, signed by the real `add_zone_signing_key_mut` + `secure_zone_mut`, wrapped in
 //!   a real `Catalog`; `Built::records` is the full dump including RRSIG / NSEC / NSEC3.
+//! * [`BuildOpts`], [`build_opts`] – every per-zone configuration knob explicit (zone type, AXFR policy, Sqlite wrapper flags).
+//! * [`QueryShape`], [`query_bytes_shape`] – request flags RD/CD/AD and the OPT record (absent / DO=0 / DO=1, payload).
 //! * [`Front`], [`build_front`] – the same zone behind the `SqliteZoneHandler` wrapper (differential front end).
 //! * [`ZoneSpec::upper_cased`] – the same zone with upper-case names (case-insensitivity dimension).
 //! * [`query_bytes_class`], [`ask_raw`] – explicit QCLASS / raw response bytes.
@@ -26,7 +28,7 @@
 //! Nothing in here judges anything: oracles live in the checks and in `vref`.
 
 use std::pin::Pin;
-use std::str::FromStr;
+
 use std::sync::{Arc, Mutex};
 use std::time::Duration;
 
@@ -50,8 +52,10 @@ use vsim::SimProvider;
 pub const ORIGIN: &str = "z.";
 pub const TTL: u32 = 300;
 
+/// ASCII presentation form -> `Name`, case PRESERVED (`Name::from_str` goes through IDNA
+/// processing, which folds ASCII letters to lower case).
 pub fn hname(s: &str) -> Name {
-    Name::from_str(s).unwrap()
+    Name::from_ascii(s).unwrap()
 }
 
 // ------------------------------------------------------------------------------------------
@@ -369,6 +373,35 @@ pub fn family(origin: &str, names: &[String], max_owners: usize, kinds: &[Kind])
     out
 }
 
+/// The single-branch universe of the deep slice: one branch three labels deep with a sibling at
+/// the bottom and a wildcard at both inner levels.
+pub const DEEP_BRANCH: [&str; 6] = ["a.z.", "a.a.z.", "a.a.a.z.", "b.a.a.z.", "*.a.z.", "*.a.a.z."];
+
+/// Query names one label below the deep branch (added to the query set of every zone that has an
+/// owner three labels below the origin).
+pub const DEEP_QUERIES: [&str; 4] = ["a.a.a.a.z.", "b.a.a.a.z.", "*.a.a.a.z.", "a.b.a.a.z."];
+
+/// Does the zone have an owner three or more labels below its origin?
+pub fn is_deep(spec: &ZoneSpec) -> bool {
+    let base = spec.origin.matches('.').count();
+    spec.owners.iter().any(|(o, _)| o.matches('.').count() >= base + 3)
+}
+
+/// The deep slice: every zone over [`DEEP_BRANCH`] that has an owner three labels below the
+/// origin, with <= 2 owners of `kinds` (delegation kinds are not placed at wildcards) and - if
+/// `three` is given - with exactly 3 owners of those kinds. These are the smallest zones in which
+/// an empty non-terminal has its first descendant two or more labels below it, an empty
+/// non-terminal sits above another one, and a wildcard sits below an empty non-terminal - shapes
+/// U(2) cannot express.
+pub fn deep_family(kinds: &[Kind], three: Option<&[Kind]>) -> Vec<ZoneSpec> {
+    let names: Vec<String> = DEEP_BRANCH.iter().map(|s| s.to_string()).collect();
+    let mut out: Vec<ZoneSpec> = family(ORIGIN, &names, 2, kinds).into_iter().filter(is_deep).collect();
+    if let Some(k3) = three {
+        out.extend(family(ORIGIN, &names, 3, k3).into_iter().filter(|s| s.owners.len() == 3 && is_deep(s)));
+    }
+    out
+}
+
 // ------------------------------------------------------------------------------------------
 // keys
 
@@ -483,6 +516,49 @@ pub enum Front {
 
 /// As [`build`], with a choice of the front-end zone handler.
 pub fn build_front(spec: &ZoneSpec, signing: &Signing, front: Front) -> Result<Built, String> {
+    build_opts(spec, signing, &BuildOpts { front, ..BuildOpts::default() })
+}
+
+/// Every per-zone configuration knob the server-side code reads when it answers queries.
+#[derive(Clone, Copy, Debug, PartialEq, Eq)]
+pub struct BuildOpts {
+    pub front: Front,
+    /// `ZoneType::Secondary` instead of `Primary` (both are answered authoritatively)
+    pub secondary: bool,
+    /// `AxfrPolicy::AllowAll` instead of `Deny` (must not matter for ordinary queries)
+    pub axfr_allow_all: bool,
+    /// `SqliteZoneHandler::new(.., allow_update, ..)` (only with `Front::Sqlite`)
+    pub allow_update: bool,
+    /// `SqliteZoneHandler::new(.., is_dnssec_enabled)`; None = "the zone is signed"
+    pub is_dnssec_enabled: Option<bool>,
+}
+
+impl Default for BuildOpts {
+    fn default() -> Self {
+        BuildOpts { front: Front::InMemory, secondary: false, axfr_allow_all: false, allow_update: false, is_dnssec_enabled: None }
+    }
+}
+
+impl BuildOpts {
+    pub fn tag(&self) -> String {
+        format!(
+            "{}{}{}{}{}",
+            if self.front == Front::Sqlite { "sqlite" } else { "inmem" },
+            if self.secondary { "+secondary" } else { "" },
+            if self.axfr_allow_all { "+axfr-allow-all" } else { "" },
+            if self.allow_update { "+allow-update" } else { "" },
+            match self.is_dnssec_enabled {
+                None => "",
+                Some(true) => "+dnssec-enabled",
+                Some(false) => "+dnssec-disabled",
+            }
+        )
+    }
+}
+
+/// As [`build`], with every configuration knob explicit.
+pub fn build_opts(spec: &ZoneSpec, signing: &Signing, opts: &BuildOpts) -> Result<Built, String> {
+    let front = opts.front;
     let origin = hname(&spec.origin);
     let nx = match signing {
         Signing::Unsigned => None,
@@ -494,7 +570,8 @@ pub fn build_front(spec: &ZoneSpec, signing: &Signing, front: Front) -> Result<B
             opt_out: *opt_out,
         }),
     };
-    let mut zone = InMemoryZoneHandler::<SimProvider>::empty(origin.clone(), ZoneType::Primary, AxfrPolicy::Deny, nx);
+    let policy = if opts.axfr_allow_all { AxfrPolicy::AllowAll } else { AxfrPolicy::Deny };
+    let mut zone = InMemoryZoneHandler::<SimProvider>::empty(origin.clone(), if opts.secondary { ZoneType::Secondary } else { ZoneType::Primary }, policy, nx);
     for r in spec.hickory_records() {
         let d = format!("{r}");
         if !zone.upsert_mut(r, 1) {
@@ -516,7 +593,12 @@ pub fn build_front(spec: &ZoneSpec, signing: &Signing, front: Front) -> Result<B
     match front {
         Front::InMemory => catalog.upsert(origin.into(), vec![Arc::new(zone)]),
         Front::Sqlite => {
-            let wrapped = hickory_server::store::sqlite::SqliteZoneHandler::<SimProvider>::new(zone, AxfrPolicy::Deny, false, signing.is_signed());
+            let wrapped = hickory_server::store::sqlite::SqliteZoneHandler::<SimProvider>::new(
+                zone,
+                policy,
+                opts.allow_update,
+                opts.is_dnssec_enabled.unwrap_or(signing.is_signed()),
+            );
             catalog.upsert(origin.into(), vec![Arc::new(wrapped)])
         }
     }
@@ -574,6 +656,50 @@ pub fn query_bytes(qname: &str, qtype: u16, dnssec_ok: bool) -> Vec<u8> {
         let mut e = Edns::new();
         e.set_max_payload(4096);
         e.enable_dnssec();
+        m.set_edns(e);
+    }
+    m.to_vec().unwrap()
+}
+
+/// The request-side knobs: header flags and the OPT record.
+#[derive(Clone, Copy, Debug, PartialEq, Eq)]
+pub struct QueryShape {
+    /// an OPT record is present
+    pub edns: bool,
+    pub do_bit: bool,
+    pub payload: u16,
+    pub rd: bool,
+    pub cd: bool,
+    pub ad: bool,
+}
+
+impl QueryShape {
+    pub const PLAIN: QueryShape = QueryShape { edns: false, do_bit: false, payload: 4096, rd: false, cd: false, ad: false };
+    pub const DO: QueryShape = QueryShape { edns: true, do_bit: true, payload: 4096, rd: false, cd: false, ad: false };
+    pub fn tag(&self) -> String {
+        format!(
+            "{}{}{}{}",
+            if !self.edns { "noedns".to_string() } else { format!("edns{}:{}", self.payload, if self.do_bit { "do=1" } else { "do=0" }) },
+            if self.rd { "+rd" } else { "" },
+            if self.cd { "+cd" } else { "" },
+            if self.ad { "+ad" } else { "" }
+        )
+    }
+}
+
+/// A standard query with explicit header flags and OPT record.
+pub fn query_bytes_shape(qname: &str, qtype: u16, shape: &QueryShape) -> Vec<u8> {
+    let mut m = Message::new(0x2a2a, MessageType::Query, OpCode::Query);
+    m.add_query(Query::new(hname(qname), rtype(qtype)));
+    m.metadata.recursion_desired = shape.rd;
+    m.metadata.checking_disabled = shape.cd;
+    m.metadata.authentic_data = shape.ad;
+    if shape.edns {
+        let mut e = Edns::new();
+        e.set_max_payload(shape.payload.max(512));
+        if shape.do_bit {
+            e.enable_dnssec();
+        }
         m.set_edns(e);
     }
     m.to_vec().unwrap()
